@@ -51,6 +51,12 @@ def run(v, work, tier, sd, nodex, pid="C14"):
             "deviation": "the stake / committees after the block are not what applying the block's successful transactions gives"}
     # C14 owns the cap and at-most-once; C07 (atomicity) owns what failed transactions leave behind
     mine = {"C14": ["over-cap", "more-than-ordered"], "C07": ["more-than-ordered", "valid-refused", "deviation"]}[pid]
+    # the proposer's own block does not commit because replaying it gives another header: what an earlier discarded / failed
+    # execution left behind went into the proposal (C07); for C14 this is not a verdict
+    mism = [e for e in wedge if "unequal block hash" in e.get("err", "")]
+    if pid == "C07" and mism:
+        v.violation("slash:own-block-does-not-replay", "a block the node built from its own mempool does not commit on the same node: replaying it gives another header (%d block(s); first: %s)"
+                    % (len(mism), brief(mism[0])), {"line": mism[0]})
     for k in mine:
         if kinds[k]:
             e = kinds[k][0]
@@ -63,7 +69,7 @@ def run(v, work, tier, sd, nodex, pid="C14"):
         v.divergence("slash driver: a block could not be produced / committed (not a %s verdict): %s" % (pid, brief(e)))
     fatal = sum(len(kinds[k]) for k in mine)
     capped = sum(1 for e in recs if e["capOn"] and e["kind"] == "block" and any(len(b["committees"]) > len(a["committees"]) for b in e["before"] for a in e["after"] if a["name"] == b["name"]))
-    if not fatal and (capped == 0 or len(wedge) * 2 > runs):
+    if not fatal and not v.violations and not v.known and (capped == 0 or len(wedge) * 2 > runs):
         raise vlib.Infra("slash driver: the cap was reached in %d blocks, %d runs wedged: nothing to judge" % (capped, len(wedge)))
     return {"slash_states": rd.distinct, "slash_guards_confirmed_necessary": GUARDS, "slash_block_states_validated": consumed,
             "slash_orders": sum(len(e["slashes"]) for e in recs if e["kind"] == "block"), "slash_blocks_reaching_cap": capped,
